@@ -138,6 +138,16 @@ func strLenBounds(v value) (int64, int64) {
 }
 
 func (m *machine) binopStr(op token.Token, x, y value) value {
+	if xs, ok := x.(string); ok {
+		if ys, ok := y.(string); ok {
+			return binopConcrete(op, types.Typ[types.String], xs, ys)
+		}
+	}
+	if (isConcScalar(x) || tblOf(x) != nil) && (isConcScalar(y) || tblOf(y) != nil) {
+		if r, ok := m.liftBinop(op, types.Typ[types.String], x, y); ok {
+			return r
+		}
+	}
 	xt, yt := termOf(x), termOf(y)
 	switch op {
 	case token.ADD:
